@@ -38,6 +38,7 @@ func runC15(c *Ctx, r *Report) {
 	c15R11(c, r, "C15.R11")
 	c15R12(c, r, "C15.R12")
 	c15R13(c, r, "C15.R13")
+	c15R14(c, r, "C15.R14")
 }
 
 // docOptions extracts the option keywords at block depth 1 of a "Syntax:" doc block.
@@ -960,5 +961,140 @@ func c15R13(c *Ctx, r *Report, rule string) {
 	}
 	if n == 0 {
 		r.bad(rule, "unmarshallers", "appended pointers", "-", "no pointer is appended in a loop of an unmarshaller (rule has no instance)")
+	}
+}
+
+// c15R14: a Caddyfile option handler writes down what the tokens say. A value taken from the tokens that is stored
+// into the configuration only under a test on that same value, with the other outcome silently going on to the next
+// token (no error, nothing stored), makes the adapted JSON state less than the Caddyfile does - for the SOCKS5
+// credentials it even turns "credentials configured" into "no credentials" and with it authentication off.
+func c15R14(c *Ctx, r *Report, rule string) {
+	r.rule(rule, "no silent filtering in Caddyfile option handlers: where a token value is stored into the configuration (field store, append, map entry) inside an argument loop under a test on that same value, the other outcome of the test ends in an error or stores something too - it never just moves on to the next token", 5)
+	n := 0
+	for _, fn := range sortedFuncs(c15Roots(c)) {
+		if len(fn.Blocks) == 0 || fn.Pkg == nil || !strings.HasPrefix(fn.Pkg.Pkg.Path(), modPath) {
+			continue
+		}
+		isConfigWrite := func(in ssa.Instruction) bool {
+			switch x := in.(type) {
+			case *ssa.Store:
+				_, _, _, ok := fieldAddr(x.Addr)
+				if ok {
+					return true
+				}
+				// through a pointer parameter (helpers taking *[]T / *T)
+				if _, isAlloc := x.Addr.(*ssa.Alloc); !isAlloc {
+					for _, root := range addrRoots(x.Addr) {
+						if _, isParam := root.(*ssa.Parameter); isParam {
+							return true
+						}
+					}
+				}
+			case *ssa.MapUpdate:
+				for _, root := range addrRoots(x.Map) {
+					if _, isParam := root.(*ssa.Parameter); isParam {
+						return true // a map of the configuration object (not a local work table)
+					}
+				}
+			}
+			return false
+		}
+		k := 0
+		for _, b := range fn.Blocks {
+			if !inLoop(b) {
+				continue
+			}
+			for _, in := range b.Instrs {
+				if !isConfigWrite(in) {
+					continue
+				}
+				var srcs []ssa.Value
+				switch x := in.(type) {
+				case *ssa.MapUpdate:
+					srcs = append(srcs, x.Key, x.Value)
+				case *ssa.Store:
+					srcs = append(srcs, x.Val)
+					if call, ok := x.Val.(*ssa.Call); ok && calleeID(call) == "builtin append" && len(call.Call.Args) == 2 {
+						if sl, ok := call.Call.Args[1].(*ssa.Slice); ok {
+							if va, ok := sl.X.(*ssa.Alloc); ok {
+								srcs = append(srcs, storesToDeep(va)...)
+							}
+						}
+					}
+				}
+				var leaves []ssa.Value // the token values behind what is stored
+				for _, sv := range srcs {
+					for _, o := range origins(sv, sliceOpts{}) {
+						if o.Kind == "call" && strings.HasSuffix(o.Desc, "Dispenser).Val") || o.Kind == "elem" {
+							leaves = append(leaves, o.V)
+						}
+					}
+				}
+				if len(leaves) == 0 {
+					continue
+				}
+				k++
+				n++
+				var dropped []string
+				for _, cd := range edgeConds(b) {
+					if cd.If == nil || !inLoop(cd.If.Block()) {
+						continue
+					}
+					onToken := false
+					for _, lf := range leaves {
+						if derivesFrom(cd.V, lf) {
+							onToken = true
+						}
+					}
+					if !onToken {
+						continue
+					}
+					// the other outcome
+					other := cd.If.Block().Succs[1]
+					if !cd.Truth {
+						other = cd.If.Block().Succs[0]
+					}
+					// does it reach this If again (next token) without a return or a configuration write?
+					seen := map[*ssa.BasicBlock]bool{other: true}
+					work := []*ssa.BasicBlock{other}
+					silent := false
+					for len(work) > 0 && !silent {
+						blk := work[len(work)-1]
+						work = work[:len(work)-1]
+						blocked := false
+						for _, x := range blk.Instrs {
+							if isReturn(x) || isConfigWrite(x) {
+								blocked = true
+								break
+							}
+							if _, isPanic := x.(*ssa.Panic); isPanic {
+								blocked = true
+								break
+							}
+						}
+						if blocked {
+							continue
+						}
+						for _, su := range blk.Succs {
+							if su == cd.If.Block() || su.Dominates(cd.If.Block()) && inLoop(su) {
+								silent = true
+								break
+							}
+							if !seen[su] {
+								seen[su] = true
+								work = append(work, su)
+							}
+						}
+					}
+					if silent {
+						dropped = append(dropped, c.ipos(cd.If))
+					}
+				}
+				r.check(len(dropped) == 0, rule, fname(fn), fmt.Sprintf("token stored#%d", k), c.ipos(in), "stored unconditionally, or the other outcome fails / stores too", "the token value is stored only under a test on itself (at "+strings.Join(dropped, ", ")+") whose other outcome silently goes on to the next token: the adapted configuration states less than the Caddyfile (for socks5 credentials: an entry that is dropped here can leave the handler without credentials, i.e. without authentication)")
+			}
+		}
+	}
+	if n == 0 {
+		r.bad(rule, "unmarshallers", "token stores", "-", "no token value stored in an argument loop was found (rule has no instance)")
 	}
 }
